@@ -223,7 +223,7 @@ def main():
                 "scenarios (72 systematic single-asset + seeded multi-asset with faults), each model checked for W in 1..3 over all "
                 "interleavings and executed on the real Sync.Run for W in {1,2,4,..} x {memory, file-system} targets, twice in a row; "
                 "non-trivial = the source holds something" % len(scs),
-        "scenarios": len(scs), "call_logs_validated": ntr, "call_logs_accepted": nacc, "race_detector_scenarios": len(rq),
+        "scenarios": len(scs), "call_logs_validated": ntr, "call_logs_accepted": nacc, "corrupted_call_logs_rejected": check_c12_trace.REJECTED[0], "race_detector_scenarios": len(rq),
         "model_reaches_data_race": bool(model_race), "exhaustive": False, "known_findings_hit": V.hit},
         time.time() - t0, len(V.new),
         assumptions=["asset lists without duplicates", "data races are detected by the Go race detector under the schedules of W=4; the "
